@@ -276,7 +276,7 @@ def run(repo: Repo, chk: Check, thorough: bool = False) -> None:
     sites_r = []
     for n in ra:
         for c in [c for c in ast.walk(n.value) if isinstance(c, ast.Call) and call_name(c) == '_AnnotationValueFormatter']:
-            facts = list(cfg.dominating_tests(n, raw=True))
+            facts = list(cfg.scenario_facts(n))
             x_: ast.AST = c
             for p_ in parents(c):
                 if isinstance(p_, ast.IfExp):
